@@ -451,3 +451,50 @@ func vh_gate_faults() {
 	vAssert(post.latestIndex <= r.getLastIndex(), "C05.gatefault.quorum-configuration-is-in-the-log")
 	vReach("gatefault.end")
 }
+
+// vh_leader_apply_racing_transfer: the apply case of leaderLoop while the transfer-in-progress flag is
+// owned by another goroutine (the transfer supervisor resets it asynchronously): every atomic load of the
+// flag may see a different value. A call answered with ErrLeadershipTransferInProgress was never stored,
+// whichever values the loads saw. C08 (a refused call has no effect), C17.
+func vh_leader_apply_racing_transfer() {
+	w := 3
+	r, env := vNewRaft("L", vRaftOpts{n: 1, w: w, shaped: true})
+	vAssume(vInvBasic(r, env))
+	vAssume(vInvLog(r, env, w))
+	vMakeLeader(r, "L", 0)
+	base := vBase()
+	lastIndex := r.getLastIndex()
+	vAssume(lastIndex >= base && lastIndex+2 <= base+uint64(w))
+	vVolatile(&r.leaderState.leadershipTransferInProgress)
+	k := vChoose("k", 1, 2)
+	var fs []*logFuture
+	for i := 0; i < k; i++ {
+		f := vArbFuture("f")
+		fs = append(fs, f)
+		r.applyCh <- f
+	}
+	pre := vSnap(r, env)
+	vRunUntilBlocked(r.leaderLoop)
+	post := vSnap(r, env)
+	nRefused := 0
+	for _, f := range fs {
+		done, err := vFutureErr(&f.deferError)
+		if done && err == ErrLeadershipTransferInProgress {
+			vCover("race.refused")
+			nRefused++
+			vAssert(f.log.Index == 0, "C08.race.refused-call-never-got-an-index")
+			for e := r.leaderState.inflight.Front(); e != nil; e = e.Next() {
+				vAssert(e.Value.(*logFuture) != f, "C08.race.refused-call-not-inflight")
+			}
+		} else {
+			vCover("race.dispatched")
+			vAssert(!done, "C08.race.dispatched-call-stays-pending")
+			vAssert(f.log.Index > lastIndex && env.logs.has(f.log.Index), "C08.race.dispatched-call-stored")
+		}
+	}
+	if nRefused == k {
+		vAssert(post.storeCalls == pre.storeCalls && post.logIdx == pre.logIdx, "C08.race.all-refused-nothing-stored")
+	}
+	vAssert(len(r.applyCh) == 0, "C17.race.every-queued-call-served")
+	vReach("race.end")
+}
